@@ -33,7 +33,7 @@ RULE = (
     "distinct by (script set, schedule)."
 )
 CLASSES = [
-    "same_job_init_race", "mkdir_race", "read_during_write", "len_during_init", "three_actors", "populated_start",
+    "same_job_init_race", "mkdir_race", "read_during_write", "len_during_init", "three_actors", "populated_start", "symlinked_job_dir",
     "preempt_inside_init", "preempt_inside_doc_write", "random_schedule", "bounded_schedule",
 ]
 ASSUMPTIONS = [
@@ -42,7 +42,7 @@ ASSUMPTIONS = [
     "len(project) during concurrent creation may be any count between the initial and the final number of job directories",
 ]
 
-SPS = [{"a": 0}, {"a": 1}, {"a": 2}]
+SPS = [{"a": 0}, {"a": 1}, {}]  # the third job has the empty state point
 DOC_FILE = "signac_job_document.json"
 SP_FILE = "signac_statepoint.json"
 
@@ -63,7 +63,7 @@ def cases(draw, nactors=2):
     # job j may only be written by actor j % nactors
     actors = [draw(actor_ops([j for j in range(3) if j % nactors == a] or [a])) for a in range(nactors)]
     return {
-        "start": draw(st.sampled_from(["empty", "empty", "populated", "noworkspace"])),
+        "start": draw(st.sampled_from(["empty", "empty", "populated", "populated_link", "noworkspace"])),
         "actors": actors,
         "mode": draw(st.sampled_from(["bounded", "random"])) if nactors == 2 else "random",
         "schedules": draw(st.lists(st.lists(st.integers(0, 5), max_size=60), min_size=1, max_size=4)),
@@ -76,11 +76,19 @@ def build(ctx, case):
     root = ctx.tmpdir("c12t")
     project = signac.init_project(root)
     init_docs = {}
-    if case.get("start") == "populated":
+    if case.get("start") in ("populated", "populated_link"):
         for j in (0, 1):
             job = project.open_job(SPS[j]).init()
             fsutil.write_file(job.fn(DOC_FILE), b'{"p": 1}')
             init_docs[j] = {"p": 1}
+        if case.get("start") == "populated_link":
+            # job 1 is kept on other storage and linked into the workspace under its id
+            store = os.path.join(root, "elsewhere")
+            os.makedirs(store)
+            jid = oracle.job_id(SPS[1])
+            os.rename(os.path.join(root, "workspace", jid), os.path.join(store, jid))
+            # (relative target: every schedule runs on its own copy of this tree)
+            os.symlink(os.path.join(os.pardir, "elsewhere", jid), os.path.join(root, "workspace", jid))
     if case.get("start") == "noworkspace":
         os.rmdir(os.path.join(root, "workspace"))  # every actor's Project() creates it
     return root, init_docs
@@ -291,8 +299,10 @@ def run_case(case, ctx):
     nact = len(case["actors"])
     if nact == 3:
         cl.add("three_actors")
-    if case.get("start") == "populated":
+    if case.get("start") in ("populated", "populated_link"):
         cl.add("populated_start")
+    if case.get("start") == "populated_link":
+        cl.add("symlinked_job_dir")
     if case.get("start") == "noworkspace":
         cl.add("noworkspace_start")
     template, init_docs = build(ctx, case)
